@@ -1,4 +1,5 @@
 import BsVerif.Lemmas.Dqe
+import BsVerif.Lemmas.DqeParse
 /-!
 # C07 — data query expressions mean what the documentation says
 
@@ -243,5 +244,72 @@ theorem C07_precedence (f : Nat) (s : Str) (e : Dqe) (r : Str) (h : parseExpr f 
       e = pres.foldr Pre.apply (posts.foldl Post.apply atom) ∧
       ((∃ n, atom = .var n) ∨ (∃ ty a, atom = .ptrCast ty a) ∨ (∃ f' s' r', parseExpr f' s' = .ok atom r')) :=
   precedence_shape f s e r h
+
+
+/-! ## parsing is a function of the text alone: the canonical text parses back -/
+
+/-- decidable well-formedness of names, fields, types and literals (what the grammar can express at all) -/
+def canonName (n : Str) : Bool := rustIdent n == some (n, []) && (symS ['t', 'r', 'u', 'e'] n).isNone && (symS ['f', 'a', 'l', 's', 'e'] n).isNone
+def canonVar (n : Str) : Bool := rustIdent n == some (n, [])
+def isIntTok (t : Str) : Bool := scanInt t == some (t, [])
+def canonField (f : Str) : Bool := isIdentB f || isIntTok f
+def canonTy (ty : Str) : Bool := !ty.isEmpty && ty.all isTypeCh && trimSp ty == ty
+
+mutual
+def canonLit : Lit → Bool
+  | .str s => !s.contains '"'
+  | .int i => decide (-2 ^ 63 < i ∧ i < 2 ^ 63)
+  | .float _ ip fp => isIntTok ip && isIntTok fp
+  | .addr a => decide (a < 2 ^ 64)
+  | .bool _ => true
+  | .enumV name none => canonName name
+  | .enumV name (some l) => canonName name && canonLit l
+  | .arr items => canonItems items
+  | .assoc kvs => !kvs.isEmpty && canonKvs kvs
+  | .wild => false
+def canonItems : List Lit → Bool
+  | [] => true
+  | .wild :: t => canonItems t
+  | l :: t => canonLit l && canonItems t
+def canonKvs : List (Str × Lit) → Bool
+  | [] => true
+  | (k, .wild) :: t => canonName k && canonKvs t
+  | (k, l) :: t => canonName k && canonLit l && canonKvs t
+end
+
+def Canon : Dqe → Bool
+  | .var n => canonVar n
+  | .ptrCast ty a => canonTy ty && decide (a < 2 ^ 64)
+  | .field e f => Canon e && canonField f
+  | .index e l => Canon e && canonLit l
+  | .slice e l r => Canon e && decide (l.getD 0 < 2 ^ 64 ∧ r.getD 0 < 2 ^ 64)
+  | .deref e | .address e | .canonic e => Canon e
+
+/-- **Full statement** (character level): the canonical text of every expressible expression parses back to it.
+Proved below for the operator skeleton (`C07_print_parse_partial`); for literals, slices, pointer casts, path names and
+tuple fields it is sampled on every run (correspondence run + the generator's expected AST), not proved. -/
+def C07_print_parse_full : Prop := ∀ e, Canon e = true → parse (print e) = .ok e []
+
+/-- **C07_print_parse (partial, character level).** For every expression built from variables and fields named by plain
+identifiers and the prefix operators `*`, `&`, `~` — any nesting, parenthesised where a prefix operator sits under a
+field — the parser model maps the canonical text back to the expression, consuming all of it. -/
+theorem C07_print_parse_partial (e : Dqe) (h : frag e = true) : parse (print e) = .ok e [] := print_parse_frag e h
+
+/-- the fragment is part of the canonical class on which the full statement speaks (so the partial theorem is an instance of it) -/
+example : frag (.field (.deref (.address (.field (.var ['a', '1']) ['_', 'b']))) ['c']) = true := by decide
+
+example : parse ['(', '*', '&', 'a', '.', 'b', ')', '.', 'c'] = .ok (.field (.deref (.address (.field (.var ['a']) ['b']))) ['c']) [] := by
+  have := C07_print_parse_partial (.field (.deref (.address (.field (.var ['a']) ['b']))) ['c']) (by decide)
+  simpa [print, printPre, printPost] using this
+
+/-- **C07_precedence (instances for all identifiers).** `*a.b` is `Deref(Field(a, b))`; `(*a).b` is `Field(Deref a, b)`. -/
+theorem C07_precedence_deref_field (a b : Str) (ha : isIdentB a = true) (hb : isIdentB b = true) :
+    parse ('*' :: a ++ '.' :: b) = .ok (.deref (.field (.var a) b)) [] ∧
+    parse ('(' :: '*' :: a ++ ')' :: '.' :: b) = .ok (.field (.deref (.var a)) b) [] := by
+  constructor
+  · have := C07_print_parse_partial (.deref (.field (.var a) b)) (by simp [frag, ha, hb])
+    simpa [print, printPre, printPost] using this
+  · have := C07_print_parse_partial (.field (.deref (.var a)) b) (by simp [frag, ha, hb])
+    simpa [print, printPre, printPost] using this
 
 end BsVerif.Dqe
